@@ -39,6 +39,11 @@ FED_CONFIGS = {
     "fed_computed": (_SINGLE, "call_argument_directives_with_null: true\n", "  options:\n    computed_requires: true"),
     "fed_wl2": (_SINGLE + "\n  worker_limit: 2", "", ""),
 }
+# the options probe: input objects under the options that change how they are handed around
+for _k, _o in {"opts_default": "", "opts_retptr": "return_pointers_in_unmarshalinput: true\n", "opts_valstruct": "struct_fields_always_pointers: false\n",
+               "opts_slices": "omit_slice_element_pointers: true\n",
+               "opts_all": "return_pointers_in_unmarshalinput: true\nstruct_fields_always_pointers: false\nomit_slice_element_pointers: true\n"}.items():
+    CONFIGS[_k] = (_SINGLE, _o)
 for _k in FED_CONFIGS:
     CONFIGS[_k] = (FED_CONFIGS[_k][0], FED_CONFIGS[_k][1])
 
